@@ -82,16 +82,36 @@ def fam_invchain(n, mode):
     return ("package adv\n\nfunc F(m int) int {\n\ts := 0\n\tx0 := m\n\ti := 0\n\tfor {\n%s\t\tif i >= %s {\n\t\t\tbreak\n\t\t}\n\t\ts += i\n\t\ti++\n\t}\n\treturn s\n}\n" % (chain, top))
 
 
+def fam_detached(n, k):
+    """Operand-less calls that data-flow propagation never reaches: the old version has n of one kind and n of
+    another, the new version (k > 3) only the n of the second kind — many leftovers with a partner, many without."""
+    a = "".join("\tsink(1)\n" for _ in range(n)) if k <= 3 else ""
+    b = "".join("\tsink(2)\n" for _ in range(n))
+    return "package adv\n\nvar acc int\n\nfunc sink(v int) { acc += v }\n\nfunc F() {\n%s%s}\n" % (a, b)
+
+
+def fam_depnest(n, k):
+    """Nested loops whose start AND step are the enclosing loop's counter."""
+    s = "package adv\n\nfunc F(n int) int {\n\tt := %d\n\tfor i0 := 1; i0 < n; i0++ {\n" % k
+    for d in range(1, n):
+        s += "\t" * (d + 1) + "for i%d := i%d; i%d < n; i%d += i%d {\n" % (d, d - 1, d, d, d - 1)
+    s += "\t" * (n + 1) + "t += i%d\n" % (n - 1)
+    for d in reversed(range(n)):
+        s += "\t" * (d + 1) + "}\n"
+    return s + "\treturn t\n}\n"
+
+
 FAMILIES = {"const_adds": fam_const_adds, "identical_ops": fam_identical, "calls_distinct_args": fam_calls, "dag_doubling": fam_dag,
             "nested_loops": fam_nested, "many_blocks": fam_blocks, "phi_cycle": fam_phi, "huge_literals": fam_literal,
             "invariant_chain_acc": lambda n, k: fam_invchain(n, 0), "invariant_chain_step": lambda n, k: fam_invchain(n, 1),
-            "invariant_chain_limit": lambda n, k: fam_invchain(n, 2)}
+            "invariant_chain_limit": lambda n, k: fam_invchain(n, 2), "detached_calls": fam_detached, "dependent_nest": fam_depnest}
 SIZES = {"const_adds": [250, 500, 1000, 2000, 4000, 8000, 16000], "identical_ops": [250, 1000, 4000, 16000],
          "calls_distinct_args": [250, 1000, 4000, 16000], "dag_doubling": [8, 16, 32, 64, 128, 256],
          "nested_loops": [10, 30, 60, 63, 64, 65, 70, 90], "many_blocks": [500, 1500, 2400, 2600, 4000, 8000],
          "phi_cycle": [8, 32, 128, 512], "huge_literals": [64, 1000, 16000, 70000],
          "invariant_chain_acc": [50, 99, 101, 120, 400], "invariant_chain_step": [50, 99, 101, 120, 400],
-         "invariant_chain_limit": [50, 99, 101, 120, 400]}
+         "invariant_chain_limit": [50, 99, 101, 120, 400], "detached_calls": [250, 500, 1000, 2000, 4000],
+         "dependent_nest": [4, 8, 12, 14, 16, 18, 20, 22]}
 
 
 def check(ctx):
@@ -111,7 +131,7 @@ def check(ctx):
         for n in sizes:
             d = os.path.join(base, "%s_%d" % (fam, n))
             k = rng.choice([1, 2, 3])
-            for side, arg in (("old", k), ("new", k + (n if fam in ("const_adds", "calls_distinct_args") else 1))):
+            for side, arg in (("old", k), ("new", k + (n if fam in ("const_adds", "calls_distinct_args", "detached_calls") else 1))):
                 os.makedirs(os.path.join(d, side))
                 with open(os.path.join(d, side, "go.mod"), "w") as fh:
                     fh.write("module example.com/adv\n\ngo 1.21\n")
@@ -137,6 +157,7 @@ def check(ctx):
     ctx.notes["max_total_comparisons"] = max(e["total_cmp"] for e in zips)
     ctx.notes["max_worst_call"] = max((e["worst_cmp"], e["worst_nold"]) for e in zips)
     ctx.notes["slowest_run_ms"] = max(e["wall_ms"] for e in evs)
+    ctx.notes["ir_ratio_by_family"] = {f: round(max([e.get("ir_bytes", 0) / max(1, e["bytes"]) for e in runs if e["family"] == f] or [0]), 1) for f in FAMILIES}
     ctx.notes["oversized_rejections"] = len([e for e in runs if e["oversized"]])
     trace = os.path.join(ctx.scratch, "trace.ndjson")
     live = list(evs)
@@ -154,9 +175,11 @@ def check(ctx):
         if e["ev"] == "zip":
             kind = "work" if e.get("completed") else "crash"
             desc = ("zipper on family %s size %d: worst matchUsers call made %s comparisons for %s old users; total %s for %s uses + %s blocks"
-                    % (e["family"], e["size"], e.get("worst_cmp"), e.get("worst_nold"), e.get("total_cmp"), e.get("uses_old"), e.get("blocks_old")))
+                    % (e["family"], e["size"], e.get("worst_cmp"), e.get("worst_nold"), e.get("total_cmp"), e.get("uses_old"), e.get("blocks_old"))
+                    + " (%s instructions in the two functions)" % e.get("instrs_old"))
         else:
-            kind = "panic" if e.get("panicked") else ("budget" if e.get("wall_ms", 0) > e["budget_ms"] else "guard")
+            kind = "panic" if e.get("panicked") else ("budget" if e.get("wall_ms", 0) > e["budget_ms"] else
+                                                      ("irsize" if e.get("ir_bytes", 0) > 200 * e.get("bytes", 0) + 1048576 else "guard"))
             desc = "pipeline on family %s size %d: %s" % (e["family"], e["size"], json.dumps(e)[:600])
         fresh = ctx.violation("C17:%s:%s:%s" % (e["ev"], e["family"], kind), desc, replay)
         if fresh:
